@@ -6,6 +6,7 @@ and read back with ast.literal_eval).
 import operator
 
 from . import fam as F
+from .kkey import UH
 
 _marker = object()
 
@@ -107,7 +108,18 @@ def bad_value(fam):
 def apply_sut(ctx, t, op, arg=_marker):
     """Apply op to the real container; returns ('ok', value) | ('exc', name).
     `arg`: a pre-built operand for update / in-place operators (the fault enumerators build
-    it before arming their interception points)."""
+    it before arming their interception points).
+    While the call runs the unhashable key class is really unhashable (vt.kkey.UH)."""
+    if arg is _marker and (op[0] == 'update' or op[0] in _INPLACE):
+        arg = build_arg(ctx, op[1], op[2])
+    UH.locked = True
+    try:
+        return _apply_sut(ctx, t, op, arg)
+    finally:
+        UH.locked = False
+
+
+def _apply_sut(ctx, t, op, arg=_marker):
     name = op[0]
     if name == 'badkey':
         # ('badkey', how[, value]): a write with a key that cannot be stored
